@@ -23,8 +23,10 @@ def policy (l : Line) (r : TEReq) : Go.R TEReq :=
   if r.exchangeSubjectTokenType == _root_.C15.tID && r.requestedTokenType == _root_.C15.tRefresh then .error "ErrInvalidRequest" else
   let imp := r.scopes.filterMap fun s => if Go.hasPrefix s "custom_scope:impersonate:" then some (String.ofList (s.toList.drop "custom_scope:impersonate:".length)) else none
   let r := { r with subject := imp.getLast?.getD r.subject, scopes := r.scopes.filter (· != "address") }
-  if r.exchangeSubjectTokenType == _root_.C15.tAccess && !live.contains r.exchangeSubjectTokenIDOrToken then .error "ErrInvalidRequest"
-  else if r.exchangeActorTokenType == _root_.C15.tAccess && (r.exchangeActorTokenIDOrToken != "" || r.exchangeActor != "") && !live.contains r.exchangeActorTokenIDOrToken then .error "ErrInvalidRequest"
+  -- `pol=trust` (deep4): the trusting policy of c15store.go - the same decisions WITHOUT the lookup of a presented access token's id
+  let lookup := str l "pol" != "trust"
+  if lookup && r.exchangeSubjectTokenType == _root_.C15.tAccess && !live.contains r.exchangeSubjectTokenIDOrToken then .error "ErrInvalidRequest"
+  else if lookup && r.exchangeActorTokenType == _root_.C15.tAccess && (r.exchangeActorTokenIDOrToken != "" || r.exchangeActor != "") && !live.contains r.exchangeActorTokenIDOrToken then .error "ErrInvalidRequest"
   else if r.exchangeSubject == "blocked-user" || r.subject == "blocked-user" then .error "ErrInvalidRequest"
   else .ok r
 
